@@ -25,7 +25,7 @@ const OverlapRule = "OverlappingFieldsCanBeMerged"
 
 // OverlapMixRules: the rule together with rules whose Go code did not change after the validation
 // model was written — exercises the interleaving of this rule's errors with other rules' errors.
-const OverlapMixRules = "NoFragmentCycles,OverlappingFieldsCanBeMerged,ScalarLeafs,PossibleFragmentSpreads,NoUnusedFragments,UniqueArgumentNames,KnownFragmentNames"
+const OverlapMixRules = "NoFragmentCycles,OverlappingFieldsCanBeMerged,ScalarLeafs,PossibleFragmentSpreads,NoUnusedFragments,KnownFragmentNames"
 
 type overlapStats struct {
 	cases      int
@@ -51,7 +51,7 @@ type overlapOldStats struct {
 	cases, same                    int
 	oldTimeout                     int
 	listDiffCyclic, listDiffAcylic int
-	verdictDiff                    int
+	verdictDiff, verdictDiffCyclic int
 	acyclicExamples                [][3]string // document, old, new  (smallest first)
 	acyclicLost, acyclicGained     int         // errors only the old / only the new rule reports, on acyclic documents
 }
@@ -326,7 +326,7 @@ func (c *Ctx) compareWithOldRule(pairs [][2]string, newOut []string, o *overlapO
 		}
 		nw := parts[0]
 		od := oldOut[i]
-		if od == "TIMEOUT" || strings.HasPrefix(od, "CRASH") {
+		if od == "TIMEOUT" || od == "SKIPPED" || strings.HasPrefix(od, "CRASH") {
 			o.oldTimeout++
 			continue
 		}
@@ -340,6 +340,9 @@ func (c *Ctx) compareWithOldRule(pairs [][2]string, newOut []string, o *overlapO
 		}
 		if (od == "OK") != (nw == "OK") {
 			o.verdictDiff++
+			if cyc[i] != "OK" {
+				o.verdictDiffCyclic++
+			}
 			c.Report("correspondence", "overlap-repair-verdict-differs", fmt.Sprintf("the repaired rule changes the verdict on %q:\n old = %s\n new = %s", pairs[i][1], readable(od), readable(nw)), map[string]any{"schema": pairs[i][0], "document": pairs[i][1], "old": od, "new": nw})
 			continue
 		}
@@ -372,8 +375,8 @@ func (c *Ctx) compareWithOldRule(pairs [][2]string, newOut []string, o *overlapO
 
 func (o *overlapOldStats) print() {
 	fmt.Printf("repaired rule vs previous rule: documents compared=%d identical error lists=%d; previous rule timed out / crashed on %d\n", o.cases, o.same, o.oldTimeout)
-	fmt.Printf("  verdict differs: %d; same verdict but different list: %d cyclic documents, %d ACYCLIC documents (errors only the previous rule reports: %d, only the repaired rule: %d)\n",
-		o.verdictDiff, o.listDiffCyclic, o.listDiffAcylic, o.acyclicLost, o.acyclicGained)
+	fmt.Printf("  verdict differs: %d (of which on cyclic documents: %d); same verdict but different list: %d cyclic documents, %d ACYCLIC documents (errors only the previous rule reports: %d, only the repaired rule: %d)\n",
+		o.verdictDiff, o.verdictDiffCyclic, o.listDiffCyclic, o.listDiffAcylic, o.acyclicLost, o.acyclicGained)
 	for _, e := range o.acyclicExamples {
 		fmt.Printf("  acyclic example: %q\n    old: %s\n    new: %s\n", e[0], trunc(e[1], 900), trunc(e[2], 900))
 	}
@@ -839,6 +842,7 @@ func init() {
 		if ow := os.Getenv("VERIF_OVERLAP_OLD_WORKER"); ow != "" {
 			st.old = &overlapOldStats{pool: pool.New([]string{ow, "-worker"}, c.Worker.N, 20*time.Second)}
 			st.old.pool.Env = []string{"GOMEMLIMIT=2GiB"}
+			st.old.pool.MaxCrashes = 1 << 30 // the previous rule is exponential: its timeouts are expected
 		}
 
 		// (a) imported graphql-js cases: those of this rule, and every other imported document
